@@ -226,6 +226,60 @@ def rule_verify_state(ctx: Ctx, rep: Report) -> None:
     rep.floor(rule, 100)
 
 
+def rule_ops_multi(ctx: Ctx, rep: Report) -> None:
+    """C15.ops_multi: an executed CHECKMULTISIG is charged its n public keys
+    (BIP141 / Core `nOpCount += nKeysCount`; `engine.script_op_count` does the
+    same), so the executed-ops bound of `multi()` is the number of keys -- not
+    the threshold, which is what the neighbouring stack and witness rows use."""
+    from sa.canon import expand
+    rule = "C15.ops_multi"
+    fi = ctx.func(f"{MS}._leaf_ops")
+    arm = None
+    for n in own_nodes(fi.node):
+        if isinstance(n, ast.If) and PT.match(PT.compile_("$f == 'multi'"), n.test, {}):
+            arm = n
+    if arm is None:
+        rep.unknown(rule, "_leaf_ops", fi.where(), "no `fragment == 'multi'` arm in the shape this rule reads")
+        return
+    rets = [r for st in arm.body for r in ast.walk(st) if isinstance(r, ast.Return) and isinstance(r.value, ast.Tuple) and len(r.value.elts) == 2]
+    if not rets or not (isinstance(rets[0].value.elts[1], ast.Call) and len(rets[0].value.elts[1].args) == 2):
+        rep.unknown(rule, "_leaf_ops:multi", fi.where(arm), "the arm does not return (ops, _Bounds(sat, dsat))")
+        return
+    a, b = (str(expand(fi, x)).replace(" ", "") for x in rets[0].value.elts[1].args)
+    okk = a == b == "len(node.keys)"
+    rep.ob(rule, "multi:executed_ops=keys", okk, fi.where(rets[0]), "both bounds are the number of keys" if okk else
+           f"the executed-ops bounds of multi() are ({a}, {b}): the engine charges the n keys of the CHECKMULTISIG, so max_ops is short by n - k and a script the analysis calls within limits is refused with more than 201 op codes")
+    st = ctx.fold(rets[0].value.elts[0], fi.module)
+    rep.ob(rule, "multi:static_ops=1", st == 1, fi.where(rets[0]), "one op code (the CHECKMULTISIG)")
+
+
+def rule_locktime_class(ctx: Ctx, rep: Report) -> None:
+    """C15.locktime_class: "same kind of lock time" classifies both values with
+    one predicate -- `(a >= T) != (b >= T)`; two different comparators put the
+    threshold itself (500000000, a time) in different classes on the two sides."""
+    rule = "C15.locktime_class"
+    n = 0
+    for modname in (MS, "btclib.script.engine.script_op_codes", "btclib.psbt.psbt", "btclib.psbt.psbt_in"):
+        mi = ctx.prog.modules.get(modname)
+        if mi is None:
+            continue
+        for fi in sorted(mi.functions.values(), key=lambda f: f.qualname):
+            for c in own_nodes(fi.node):
+                if not (isinstance(c, ast.Compare) and len(c.ops) == 1 and isinstance(c.ops[0], (ast.Eq, ast.NotEq, ast.Is, ast.IsNot))):
+                    continue
+                l, r = c.left, c.comparators[0]
+                if not (isinstance(l, ast.Compare) and isinstance(r, ast.Compare) and len(l.ops) == 1 and len(r.ops) == 1):
+                    continue
+                tl, tr = ctx.fold(l.comparators[0], mi), ctx.fold(r.comparators[0], mi)
+                if tl is UNKNOWN or tl != tr:
+                    continue
+                n += 1
+                same = type(l.ops[0]) is type(r.ops[0])
+                rep.ob(rule, f"{fi.qualname}:{norm(c)[:70]}", same, fi.where(c), "both sides are classified with the same comparator" if same else
+                       f"`{norm(l)}` and `{norm(r)}` classify with different comparators: the value {tl} itself falls in different classes on the two sides")
+    rep.floor(rule, 1)
+
+
 def rule_tables(ctx: Ctx, rep: Report) -> None:
     """C15.tables: templates, overheads, arities and leaf tables agree."""
     rule = "C15.tables"
@@ -301,11 +355,17 @@ def rule_limits(ctx: Ctx, rep: Report) -> None:
 RULES = [
     ("C15.universe", rule_universe),
     ("C15.verify_state", rule_verify_state),
+    ("C15.ops_multi", rule_ops_multi),
+    ("C15.locktime_class", rule_locktime_class),
     ("C15.tables", rule_tables),
     ("C15.limits", rule_limits),
 ]
 
 CONTROLS = [
+    {"rule": "C15.ops_multi", "name": "multi() charged its threshold", "module": MS,
+     "edit": lambda ctx: M.sub_expr(ctx, f"{MS}._leaf_ops", M.is_text("_Bounds(keys, keys)"), "_Bounds(node.threshold, node.threshold)")},
+    {"rule": "C15.locktime_class", "name": "the two lock times classified with different comparators", "module": MS,
+     "edit": lambda ctx: M.sub_module_expr(ctx, MS, M.is_text("self.locktime >= _LOCKTIME_THRESHOLD"), "self.locktime > _LOCKTIME_THRESHOLD")},
     {"rule": "C15.verify_state", "name": "the last argument of and_v no longer inherits the verify state", "module": MS,
      "edit": lambda ctx: M.sub_expr(ctx, f"{MS}._verify_state", lambda n: isinstance(n, ast.BoolOp) and "and_v" in norm(n), "node.fragment == 's:'")},
     {"rule": "C15.universe", "name": "j: loses its overhead entry", "module": MS,
